@@ -30,6 +30,7 @@ type rootRec struct {
 	root    common.Hash
 	content map[string][]byte
 	refd    bool // still referenced in the node cache (or flushed to disk)
+	refs    int  // number of outstanding Reference(root, {}) calls (two blocks may share a root)
 	ondisk  bool
 }
 
@@ -365,11 +366,18 @@ func runSeq(c *kit.Ctx, id string) {
 			for _, rr := range roots {
 				if rr.root == root && (rr.refd || rr.ondisk) {
 					dup = true
+					if rr.refd && !rr.ondisk && r.Intn(2) == 0 {
+						// the same root referenced once more, as two blocks with equal state roots do
+						tdb.Reference(root, common.Hash{})
+						rr.refs++
+						ops = append(ops, opRec{Op: "reference-again", Key: root.Hex()})
+						feat["ref-again"] = true
+					}
 				}
 			}
 			if !dup && len(content) > 0 {
 				tdb.Reference(root, common.Hash{})
-				roots = append(roots, &rootRec{root: root, content: copyMap(content), refd: true})
+				roots = append(roots, &rootRec{root: root, content: copyMap(content), refd: true, refs: 1})
 			}
 			feat["commit"] = true
 			// after commit, continue on a reopened trie half of the time (drops the in-memory nodes)
@@ -405,10 +413,13 @@ func runSeq(c *kit.Ctx, id string) {
 		case x < 97 && len(roots) > 1:
 			// garbage-collect one (other) root
 			rr := roots[r.Intn(len(roots))]
-			if rr.refd && !rr.ondisk && rr.root != base {
+			if rr.refd && !rr.ondisk && (rr.root != base || rr.refs > 1) {
 				ops = append(ops, opRec{Op: "deref", Key: rr.root.Hex()})
 				tdb.Dereference(rr.root)
-				rr.refd = false
+				rr.refs--
+				if rr.refs == 0 {
+					rr.refd = false
+				}
 				feat["deref"] = true
 			}
 		case x < 100 && len(roots) > 0:
